@@ -1244,7 +1244,7 @@ qh::GenOptions genOptionsFor(const std::string& property, sim::Rng& knob) {
     if (property == "C04") go.aliasProb = knob.chance(0.3) ? 0.12 : 0.0;
     if (property == "C06") go.aliasProb = knob.chance(0.25) ? 0.1 : 0.0;
     if (property == "C06" || property == "C05") go.argEffectProb = knob.chance(0.3) ? 0.04 : 0.0;
-    if (property == "C05") go.hugeLoopProb = knob.chance(0.00006) ? 0.5 : 0.0;
+    if (property == "C05") go.hugeLoopProb = 0.0;   // set per run index by the caller
     if (property == "C03" || property == "C05" || property == "C06") go.nonFiniteAngleProb = knob.chance(0.3) ? 0.01 : 0.0;
     if (property == "C03") { go.aliasProb = knob.chance(0.1) ? 0.12 : 0.0; go.cycleProb = knob.chance(0.4) ? 0.1 : 0.0; go.portProb = knob.chance(0.25) ? 0.1 : 0.0; }
     if (property == "C05" || property == "C04") go.cycleProb = knob.chance(0.15) ? 0.08 : 0.0;
@@ -1412,6 +1412,9 @@ void runOne(const sim::Options& opt, uint64_t run, sim::RunReport& rep) {
     }
     // ---- program level ----
     qh::GenOptions go = genOptionsFor(property, knob);
+    // the loop of a little over 2^20 iterations costs seconds, so it is not left to chance: four fixed run indices of a quick batch
+    // (and every 30 000th run of a thorough one) carry it
+    if (property == "C05" && run % 30000 == 20002) go.hugeLoopProb = 1.0;
     qh::Plan plan = qh::generate(gen, go);
     std::string detail;
     ProgOutcome po;
